@@ -10,4 +10,7 @@ INVARIANT Reporter
 INVARIANT RangeSane
 INVARIANT TopWins
 INVARIANT EmptyIsOff
+INVARIANT FadeOutGone
+INVARIANT OneEntryPerKey
+INVARIANT EndedFadeOutTransparent
 CHECK_DEADLOCK FALSE
